@@ -1,7 +1,11 @@
 package c11
 
 import (
+	"context"
+	"errors"
 	"fmt"
+	"math"
+	"net/http"
 	"os"
 	"sort"
 	"strings"
@@ -77,7 +81,94 @@ type plan struct {
 	sniper    int             // 0 none; 1 one Add, 2 `threshold` Adds aimed at the tick on which the idle background goroutine quits
 	sniperOff time.Duration   // offset from that tick
 	ins       *insPlan        // variant vInserter only
+
+	// constructor options (Bulk / Chunk executors)
+	defThreshold bool // the size option is not passed: the package default applies (1000 tasks / 1 MiB; only aims the workload)
+	defInterval  bool // the interval option is not passed: the package default applies (1 s; aims the workload, liveness budgets)
+	optsReversed bool // interval option before the size option
+	// callback faults
+	panicSet   map[int]bool // every callback invocation index that panics (contains panicAt)
+	panicKinds []int        // identities of the panic values, used cyclically (pk*)
+	// task values
+	valMode int // 0: every task is its int id; else a mix of shapes (vm*)
+	nilAt   int // ordinal of the Add call whose task value is nil (-1: none; at most one per run, so that it stays attributable)
+	// custom container (PeriodicalExecutor variant): the type of the batch RemoveAll returns
+	batchKind int
+	// re-entrant callbacks: invocation index -> what the callback calls on its own executor
+	// (re*); only acted upon when the whole workload cannot reach the threshold
+	reAt        map[int]int
+	unreachable bool
+	// BulkExecutor with the 1000-task threshold (passed or default), rare: one client fills the
+	// executor up to (just short of) the threshold before the producers start
+	prefill int
 }
+
+// identities of panic values
+const (
+	pkString = iota
+	pkError
+	pkWrappedError
+	pkRuntimeNilMap
+	pkAbortHandler
+	pkStruct
+	pkPointer
+	pkRuntimeIndex
+	pkDeadline
+	pkKinds
+)
+
+var pkNames = []string{"string", "error", "wrapped sentinel error", "runtime error (nil map write)", "http.ErrAbortHandler", "struct value", "pointer", "runtime error (index out of range)", "context.DeadlineExceeded"}
+
+// task value shapes
+const (
+	vmInt = iota
+	vmMixed
+	vmPointer
+	vmSlice
+	vmModes
+)
+
+var vmNames = []string{"int", "mixed (int, string, pointer, struct, slice, map)", "pointer", "slice (not comparable)"}
+
+// batch types of the custom container
+const (
+	bkSlice = iota
+	bkMap
+	bkPointer
+	bkStruct
+	bkNilWhenEmpty
+	bkChan
+	bkKinds
+)
+
+var bkNames = []string{"[]any", "map[int]any", "*struct (opaque)", "struct (opaque)", "[]any, untyped nil when empty", "chan any"}
+var bkShort = []string{"slice", "map", "pointer", "struct", "nil-when-empty", "chan"}
+
+// re-entrant calls
+const (
+	reNone = iota
+	reAdd
+	reSync
+	reAddTwice
+)
+
+const reProd = -3 // taskRec.prod of a task added from inside a callback
+
+const thrDefault = math.MinInt // threshold list entry: do not pass the option
+
+// package defaults of core/executors (unexported constants); they only aim the workload
+// (which thresholds the workload cannot reach) and the liveness budgets
+const (
+	defaultTasks    = 1000
+	defaultBytes    = 1 << 20
+	defaultInterval = time.Second
+)
+
+var errPanicSentinel = errors.New("c11: sentinel error used as a panic value")
+
+type panicBox struct{ n int }
+
+type taskBox struct{ id int }
 
 type taskRec struct {
 	id       int
@@ -109,10 +200,14 @@ type world struct {
 	tasks   []*taskRec
 	batches []*batchRec
 
-	executing   int // callbacks running now
-	invocations int
+	executing    int // callbacks running now (batches with tasks only)
+	invocations  int
+	panics       int // callback panics so far
+	addCalls     int // Add calls so far (executor variants)
+	nilID        int // id of the task whose value is nil (-1: none)
+	lastPanicked *batchRec
 	addsInFlight int
-	lateOK      bool
+	lateOK       bool
 
 	// custom container instrumentation
 	inContainer bool
@@ -127,6 +222,7 @@ type world struct {
 	abandoned bool      // the run is not judged any further (see abandon)
 
 	tolerate map[string]bool
+	capture  map[string]bool
 	inflight map[int]bool // ids of the tasks whose Add is in flight
 	pending  []*earlyWait // Wait calls that returned early while an Add was in flight; classified when the batches are known
 
@@ -151,7 +247,13 @@ func (w *world) failf(class, format string, a ...any) {
 		return
 	}
 	if strings.HasPrefix(class, observePrefix) {
-		w.observef(strings.TrimPrefix(class, observePrefix), format, a...)
+		name := strings.TrimPrefix(class, observePrefix)
+		if w.capture[name] {
+			// development aid (VERIF_C11_CAPTURE): stop at an observation to get a trace file of it
+			w.r.Fail(name, format, a...)
+			return
+		}
+		w.observef(name, format, a...)
 		return
 	}
 	w.settle()
@@ -240,26 +342,123 @@ type executor interface {
 	Sync(fn func()) bool
 }
 
-type bulkEx struct{ e *executors.BulkExecutor }
+type bulkEx struct {
+	e *executors.BulkExecutor
+	w *world
+}
 
-func (b bulkEx) Add(id, _ int)       { b.e.Add(id) }
+func (b bulkEx) Add(id, _ int) {
+	if err := b.e.Add(b.w.val(id)); err != nil {
+		b.w.failf("add-rejected", "BulkExecutor.Add of task %d returned %v", id, err)
+	}
+}
 func (b bulkEx) Flush()              { b.e.Flush() }
 func (b bulkEx) Wait()               { b.e.Wait() }
 func (b bulkEx) Sync(fn func()) bool { return false }
 
-type chunkEx struct{ e *executors.ChunkExecutor }
+type chunkEx struct {
+	e *executors.ChunkExecutor
+	w *world
+}
 
-func (c chunkEx) Add(id, size int)    { c.e.Add(id, size) }
+func (c chunkEx) Add(id, size int) {
+	if err := c.e.Add(c.w.val(id), size); err != nil {
+		c.w.failf("add-rejected", "ChunkExecutor.Add of task %d (%d bytes) returned %v", id, size, err)
+	}
+}
 func (c chunkEx) Flush()              { c.e.Flush() }
 func (c chunkEx) Wait()               { c.e.Wait() }
 func (c chunkEx) Sync(fn func()) bool { return false }
 
-type periodicalEx struct{ e *executors.PeriodicalExecutor }
+type periodicalEx struct {
+	e *executors.PeriodicalExecutor
+	w *world
+}
 
-func (p periodicalEx) Add(id, _ int)       { p.e.Add(id) }
+func (p periodicalEx) Add(id, _ int)       { p.e.Add(p.w.val(id)) }
 func (p periodicalEx) Flush()              { p.e.Flush() }
 func (p periodicalEx) Wait()               { p.e.Wait() }
 func (p periodicalEx) Sync(fn func()) bool { p.e.Sync(fn); return true }
+
+// val is the task value handed to Add for task id: the executors take `any`, so besides
+// the plain int there are strings, pointers, structs, values that are not comparable
+// (slices, maps) and - at most once per run - nil.
+func (w *world) val(id int) any {
+	n := w.addCalls
+	w.addCalls++
+	if n == w.p.nilAt && w.nilID < 0 {
+		w.nilID = id
+		w.r.Probe("task-value-nil")
+		return nil
+	}
+	shape := 0
+	switch w.p.valMode {
+	case vmMixed:
+		shape = id % 6
+	case vmPointer:
+		shape = 2
+	case vmSlice:
+		shape = 4
+	}
+	switch shape {
+	case 1:
+		return fmt.Sprintf("t%d", id)
+	case 2:
+		return &taskBox{id}
+	case 3:
+		return taskBox{id}
+	case 4:
+		w.r.Probe("task-value-not-comparable")
+		return []int{id}
+	case 5:
+		w.r.Probe("task-value-not-comparable")
+		return map[string]int{"id": id}
+	}
+	return id
+}
+
+// idOf recovers the task id from a value handed to the callback.
+func (w *world) idOf(v any) (int, bool) {
+	switch x := v.(type) {
+	case nil:
+		return w.nilID, w.nilID >= 0
+	case int:
+		return x, true
+	case string:
+		var id int
+		if _, err := fmt.Sscanf(x, "t%d", &id); err == nil && x == fmt.Sprintf("t%d", id) {
+			return id, true
+		}
+	case *taskBox:
+		if x != nil {
+			return x.id, true
+		}
+	case taskBox:
+		return x.id, true
+	case []int:
+		if len(x) == 1 {
+			return x[0], true
+		}
+	case map[string]int:
+		if id, ok := x["id"]; ok && len(x) == 1 {
+			return id, true
+		}
+	}
+	return 0, false
+}
+
+// sameVal: is b still the value a (values may be not comparable)?
+func (w *world) sameVal(a, b any) bool {
+	ia, oka := w.idOf(a)
+	ib, okb := w.idOf(b)
+	if !oka || !okb {
+		return oka == okb && fmt.Sprintf("%T %v", a, a) == fmt.Sprintf("%T %v", b, b)
+	}
+	return ia == ib && fmt.Sprintf("%T", a) == fmt.Sprintf("%T", b)
+}
+
+// opaqueBatch is a batch type the executor knows nothing about.
+type opaqueBatch struct{ tasks []any }
 
 // container is the harness' TaskContainer for the PeriodicalExecutor variant.  Like the
 // real bulk/chunk containers it is NOT safe for concurrent use: its methods are
@@ -269,6 +468,7 @@ type container struct {
 	w     *world
 	tasks []any
 	max   int
+	kind  int // bk*
 }
 
 func (c *container) enter(what string) {
@@ -288,16 +488,69 @@ func (c *container) AddTask(task any) bool {
 	return len(c.tasks) >= c.max
 }
 
+// RemoveAll returns the batch in the type drawn for the run: TaskContainer leaves the type
+// of a batch to the container (`any`); the executor must hand it to Execute whatever it is.
 func (c *container) RemoveAll() any {
 	c.enter("RemoveAll")
 	cur := c.tasks
 	c.w.r.Yield()
 	c.tasks = nil
 	c.w.inContainer = false
+	switch c.kind {
+	case bkMap:
+		m := make(map[int]any, len(cur))
+		for i, v := range cur {
+			m[i] = v
+		}
+		return m
+	case bkPointer:
+		return &opaqueBatch{cur}
+	case bkStruct:
+		return opaqueBatch{cur}
+	case bkNilWhenEmpty:
+		if len(cur) == 0 {
+			return nil
+		}
+	case bkChan:
+		ch := make(chan any, len(cur)+1)
+		for _, v := range cur {
+			ch <- v // cannot block: capacity len+1
+		}
+		return ch
+	}
 	return cur
 }
 
-func (c *container) Execute(tasks any) { c.w.execute(tasks.([]any)) }
+func (c *container) Execute(tasks any) {
+	var vals []any
+	switch x := tasks.(type) {
+	case []any:
+		vals = x
+	case map[int]any:
+		for i := 0; i < len(x); i++ {
+			v, ok := x[i]
+			if !ok {
+				c.w.failf("phantom", "Execute received a map batch %v that RemoveAll did not build", x)
+			}
+			vals = append(vals, v)
+		}
+	case *opaqueBatch:
+		vals = x.tasks
+	case opaqueBatch:
+		vals = x.tasks
+	case chan any:
+		for len(x) > 0 {
+			vals = append(vals, <-x) // cannot block: only this call receives
+		}
+	default:
+		c.w.failf("phantom", "Execute received a batch of type %T which RemoveAll never returned", tasks)
+		return
+	}
+	if c.kind != bkSlice && len(vals) > 0 {
+		c.w.r.Probe("batch-kind-" + bkShort[c.kind] + "-executed")
+	}
+	c.w.execute(vals)
+}
 
 // ---------------------------------------------------------------- workload
 
@@ -350,40 +603,68 @@ func drawWork(t *simrt.Tape, iv time.Duration) time.Duration {
 }
 
 func drawPlan(t *simrt.Tape, tier string) *plan {
-	p := &plan{panicAt: -1}
+	p := &plan{panicAt: -1, nilAt: -1, panicSet: map[int]bool{}, reAt: map[int]int{}, panicKinds: []int{pkString}}
 	// 0..2: the three executors, 3: sqlx.BulkInserter (a quarter of the runs)
 	p.variant = t.Intn(4)
 	if p.variant == vInserter {
 		drawInserterPlan(t, tier, p)
 		return p
 	}
-	p.interval = []time.Duration{100 * time.Millisecond, 10 * time.Millisecond, time.Second, 37 * time.Millisecond, 250 * time.Millisecond}[t.Intn(5)]
+	// the last entry: the interval option is not passed (Bulk / Chunk executors)
+	ivs := []time.Duration{100 * time.Millisecond, 10 * time.Millisecond, time.Second, 37 * time.Millisecond, 250 * time.Millisecond, 0}
+	if p.variant == vPeriodical {
+		ivs = ivs[:5]
+	}
+	if p.interval = ivs[t.Intn(len(ivs))]; p.interval == 0 {
+		p.interval, p.defInterval = defaultInterval, true
+	}
 	iv := p.interval
 	sizes := []int{1}
 	// the burst may also contain explicit Flush / Wait calls: the size accounting has to start
 	// from zero again after each of them
 	burstItems := []int{1, 1, 1, 1, burstFlush, burstWait}
-	if p.variant == vChunk {
-		p.threshold = []int{4, 1, 8, 16, 5}[t.Intn(5)]
-		// 0 = empty chunk; 17 and 40 are larger than every threshold: one oversized task alone
-		// reaches it
+	// thresholds: small ones, zero and negative (every Add reaches them), one far beyond the
+	// workload, and "option not passed" (package default)
+	switch p.variant {
+	case vChunk:
+		p.threshold = []int{4, 1, 8, 16, 5, 0, -1, 1 << 20, thrDefault}[t.Intn(9)]
+		if p.threshold == thrDefault {
+			p.threshold, p.defThreshold = defaultBytes, true
+		}
+		// 0 = empty chunk; 17 and 40 are larger than every small threshold: one oversized task
+		// alone reaches it
 		sizes = []int{1, 2, 3, 5, 0, 8, 4, 17, 40}
 		burstItems = []int{1, 2, 3, 5, 0, 8, 4, 17, 40, burstFlush, burstWait, 1, 2}
-	} else {
-		p.threshold = []int{2, 1, 3, 4, 5}[t.Intn(5)]
+		if p.threshold >= 1<<20 && t.Bool() {
+			// chunks of the order of the megabyte threshold
+			sizes = []int{1 << 18, 1 << 19, 1<<20 - 1, 1 << 20, 0, 1, 1<<20 + 5, 3}
+			burstItems = []int{1 << 18, 1 << 19, 1<<20 - 1, 1 << 20, 0, 1, 1<<20 + 5, 3, burstFlush, burstWait, 1 << 19, 1 << 18}
+		}
+	case vBulk:
+		p.threshold = []int{2, 1, 3, 4, 5, 0, -2, 1000, thrDefault}[t.Intn(9)]
+		if p.threshold == thrDefault {
+			p.threshold, p.defThreshold = defaultTasks, true
+		}
+	default:
+		// 1000: AddTask of the harness container never asks for a flush
+		p.threshold = []int{2, 1, 3, 4, 5, 0, 1000}[t.Intn(7)]
 	}
 	if t.Chance(1, 3) {
-		n := t.Range(1, 2*p.threshold+2)
-		if n > 12 {
-			n = 12
+		hi := 12
+		if p.threshold < 5 {
+			hi = 2*p.threshold + 2
 		}
+		if hi < 2 {
+			hi = 2
+		}
+		n := t.Range(1, hi)
 		for i := 0; i < n; i++ {
 			p.burst = append(p.burst, burstItems[t.Intn(len(burstItems))])
 		}
 	}
 	maxP, maxOps := 4, 5
 	if tier == "thorough" {
-		maxOps = 9
+		maxP, maxOps = 6, 9
 	}
 	nProd := t.Range(1, maxP)
 	for i := 0; i < nProd; i++ {
@@ -422,8 +703,125 @@ func drawPlan(t *simrt.Tape, tier string) *plan {
 	if t.Chance(1, 3) {
 		p.sniper = 1 + t.Intn(2)
 		p.sniperOff = []time.Duration{0, -time.Nanosecond, time.Nanosecond, -iv, iv}[t.Intn(5)]
+		if p.sniper == 2 && p.threshold > 16 {
+			p.sniper = 1
+		}
 	}
+	if p.panicAt >= 0 {
+		p.panicSet[p.panicAt] = true
+	}
+	drawFaultIdentities(t, p)
+	// constructor options
+	p.optsReversed = t.Chance(1, 4)
+	// task values
+	p.valMode = t.Intn(vmModes)
+	if t.Chance(1, 6) {
+		p.nilAt = t.Intn(6)
+	}
+	if p.variant == vPeriodical {
+		p.batchKind = t.Intn(bkKinds)
+	}
+	// re-entrant callbacks
+	if t.Chance(1, 4) {
+		for i, n := 0, t.Range(1, 2); i < n; i++ {
+			k := []int{reAdd, reSync, reAddTwice}[t.Intn(3)]
+			if k == reSync && p.variant != vPeriodical {
+				k = reAdd
+			}
+			p.reAt[t.Intn(6)] = k
+		}
+	}
+	// can the whole workload (re-entrant Adds included) reach the threshold?
+	total := 0
+	for _, it := range p.burst {
+		if it > 0 {
+			total += it
+		}
+	}
+	for _, ops := range p.prods {
+		for _, o := range ops {
+			if o.kind == opAdd {
+				total += o.size
+			}
+		}
+	}
+	if p.variant == vBulk && p.threshold == defaultTasks && t.Chance(1, 20) {
+		p.prefill = defaultTasks - t.Intn(3)
+		p.burst = nil
+	}
+	switch p.sniper {
+	case 1:
+		total++
+	case 2:
+		total += max(p.threshold, 1) // `threshold` Adds aimed at the quit tick
+	}
+	total += 2*len(p.reAt) + p.prefill
+	p.unreachable = p.threshold > total
 	return p
+}
+
+// drawFaultIdentities: more panicking invocations (also consecutive ones) and the identity
+// of the values the callbacks panic with.
+func drawFaultIdentities(t *simrt.Tape, p *plan) {
+	if p.panicAt < 0 {
+		return
+	}
+	if t.Chance(1, 3) {
+		for i, n := 0, t.Range(1, 3); i < n; i++ {
+			if t.Bool() {
+				p.panicSet[p.panicAt+1+i] = true // consecutive invocations
+			} else {
+				p.panicSet[t.Intn(10)] = true
+			}
+		}
+	}
+	p.panicKinds = []int{t.Intn(pkKinds)}
+	if t.Chance(1, 3) {
+		p.panicKinds = append(p.panicKinds, t.Intn(pkKinds))
+	}
+}
+
+func (p *plan) fmtOptions() string {
+	if p.variant != vBulk && p.variant != vChunk {
+		return "n/a"
+	}
+	size := fmt.Sprintf("size=%d", p.threshold)
+	if p.defThreshold {
+		size = "size not passed"
+	}
+	ivl := fmt.Sprintf("interval=%v", p.interval)
+	if p.defInterval {
+		ivl = "interval not passed"
+	}
+	if p.optsReversed {
+		return ivl + ", " + size
+	}
+	return size + ", " + ivl
+}
+
+func (p *plan) fmtPanicKinds() string {
+	var out []string
+	for _, k := range p.panicKinds {
+		out = append(out, pkNames[k])
+	}
+	return strings.Join(out, " / ")
+}
+
+func (p *plan) fmtReentrant() string {
+	var out []string
+	for _, inv := range keysOf(p.reAt) {
+		out = append(out, fmt.Sprintf("#%d:%s", inv, []string{"", "Add", "Sync", "Add+Add"}[p.reAt[inv]]))
+	}
+	return strings.Join(out, ",")
+}
+
+func keysOf(m map[int]int) []int {
+	var out []int
+	for k := range m {
+		out = append(out, k)
+	}
+	sort.Ints(out)
+	return out
 }
 
 func fmtWork(ws []time.Duration) string {
@@ -458,6 +856,16 @@ func fmtOps(p *plan, ops []op) string {
 func (p *plan) String() string {
 	var sb strings.Builder
 	fmt.Fprintf(&sb, "%s threshold=%d interval=%v burst=%v cbWork=[%s] panicAt=%d eventual=%v midWaiter=%v sniper=%d%+v", vNames[p.variant], p.threshold, p.interval, p.burst, fmtWork(p.cbWork), p.panicAt, p.eventual, p.midWaiter, p.sniper, p.sniperOff)
+	fmt.Fprintf(&sb, " options[%s] panics=%v with %s values=%s nilAt=%d", p.fmtOptions(), keys(p.panicSet), p.fmtPanicKinds(), vmNames[p.valMode], p.nilAt)
+	if p.variant == vPeriodical {
+		fmt.Fprintf(&sb, " batch=%s", bkNames[p.batchKind])
+	}
+	if p.prefill > 0 {
+		fmt.Fprintf(&sb, " prefill=%d", p.prefill)
+	}
+	if len(p.reAt) > 0 {
+		fmt.Fprintf(&sb, " reentrant=%s (threshold unreachable: %v)", p.fmtReentrant(), p.unreachable)
+	}
 	if p.ins != nil {
 		fmt.Fprintf(&sb, " %s", p.ins)
 	}
@@ -481,7 +889,7 @@ func (w *world) deliver(vals []any) *batchRec {
 	b := &batchRec{id: len(w.batches), start: w.tick(), startAt: r.Elapsed(), byTask: r.CurrentID()}
 	w.batches = append(w.batches, b)
 	for _, v := range vals {
-		id, ok := v.(int)
+		id, ok := w.idOf(v)
 		if !ok || id < 0 || id >= len(w.tasks) || w.tasks[id].addInv == 0 {
 			w.failf("phantom", "callback received %v which was never passed to Add", v)
 			continue
@@ -507,9 +915,16 @@ func (w *world) deliver(vals []any) *batchRec {
 	}
 	inv := w.invocations
 	w.invocations++
-	w.executing++
+	// a container with an opaque batch type is executed on every tick, tasks or not: only
+	// batches with tasks count as "a callback is running"
+	counted := len(vals) > 0
+	if counted {
+		w.executing++
+	}
 	defer func() {
-		w.executing--
+		if counted {
+			w.executing--
+		}
 		b.end = w.tick()
 		if !w.harnessTasks[b.byTask] {
 			w.bgLastAt = r.Elapsed()
@@ -521,7 +936,7 @@ func (w *world) deliver(vals []any) *batchRec {
 		// must not write into (or truncate) the slice it was given
 		same := len(vals) == len(snapshot)
 		for i := 0; same && i < len(vals); i++ {
-			same = vals[i] == snapshot[i]
+			same = w.sameVal(vals[i], snapshot[i])
 		}
 		if !same {
 			w.failf("batch-aliased", "the batch handed to callback #%d was %v when the callback started and is %v when it returns: the executor reuses the batch's storage for later Adds while the callback still runs", b.id, snapshot, vals)
@@ -539,12 +954,76 @@ func (w *world) deliver(vals []any) *batchRec {
 	default:
 		r.Sleep(d)
 	}
-	if inv == w.p.panicAt {
+	if k := w.p.reAt[inv]; k != reNone && len(vals) > 0 && w.p.unreachable && w.p.variant != vInserter {
+		w.reenter(k)
+	}
+	if w.p.panicSet[inv] {
 		b.panicked = true
 		r.Probe("callback-panicked")
-		panic(fmt.Sprintf("user-panic-in-callback-%d", inv))
+		if w.panics > 0 {
+			r.Probe("callback-panicked-again")
+			if last := w.lastPanicked; last != nil && last.id == b.id-1 {
+				r.Probe("callback-panicked-in-consecutive-batches")
+			}
+		}
+		w.lastPanicked = b
+		w.raise(fmt.Sprintf("callback-%d", inv))
 	}
 	return b
+}
+
+// raise panics with the next of the run's panic value identities.
+func (w *world) raise(where string) {
+	kind := w.p.panicKinds[w.panics%len(w.p.panicKinds)]
+	w.panics++
+	if kind != pkString {
+		w.r.Probe("panic-value-" + strings.ReplaceAll(strings.SplitN(pkNames[kind], " (", 2)[0], " ", "-"))
+	}
+	switch kind {
+	case pkError:
+		panic(fmt.Errorf("user-panic-error-in-%s", where))
+	case pkWrappedError:
+		panic(fmt.Errorf("user-panic-in-%s: %w", where, errPanicSentinel))
+	case pkRuntimeNilMap:
+		var m map[string]int
+		m[where] = 1 // runtime error: assignment to entry in nil map
+	case pkAbortHandler:
+		panic(http.ErrAbortHandler)
+	case pkStruct:
+		panic(panicBox{w.panics})
+	case pkPointer:
+		panic(&panicBox{w.panics})
+	case pkRuntimeIndex:
+		var s []int
+		_ = s[w.panics] // runtime error: index out of range
+	case pkDeadline:
+		panic(context.DeadlineExceeded)
+	}
+	panic("user-panic-in-" + where)
+}
+
+// reenter: the callback calls its own executor (a callback that puts follow-up work back
+// into the executor).  Only Add and Sync: Flush and Wait wait for running callbacks by
+// design.  Generated only in runs whose whole workload cannot reach the threshold: an Add
+// that reaches it waits for the background goroutine to take the batch over, which may be
+// the very goroutine that runs this callback.
+func (w *world) reenter(kind int) {
+	r := w.r
+	if !w.harnessTasks[r.CurrentID()] {
+		r.Probe("reentrant-call-on-background-goroutine")
+	}
+	switch kind {
+	case reSync:
+		r.Probe("reentrant-sync")
+		w.sync()
+	case reAddTwice:
+		r.Probe("reentrant-add")
+		w.add(reProd, 1)
+		w.add(reProd, 1)
+	default:
+		r.Probe("reentrant-add")
+		w.add(reProd, 1)
+	}
 }
 
 // ---------------------------------------------------------------- operations
@@ -556,10 +1035,18 @@ func (w *world) guard(what string, fn func()) {
 			w.failf("callback-panic-escaped", "%s panicked with %v: a panicking callback must lose only its own batch", what, rec)
 		}
 	}()
-	w.curOp[w.r.CurrentID()] = what
-	w.opInv[w.r.CurrentID()] = w.clk
+	// calls nest when a callback calls back into the executor
+	me := w.r.CurrentID()
+	outerOp, nested := w.curOp[me]
+	outerInv := w.opInv[me]
+	w.curOp[me] = what
+	w.opInv[me] = w.clk
 	fn()
-	delete(w.curOp, w.r.CurrentID())
+	if nested {
+		w.curOp[me], w.opInv[me] = outerOp, outerInv
+	} else {
+		delete(w.curOp, me)
+	}
 }
 
 func (w *world) add(prod, size int) *taskRec {
@@ -634,9 +1121,9 @@ func (w *world) checkFlushed(what string, inv int, class string) {
 // wait calls Wait and checks, at the moment it returns, that every task whose Add had
 // returned before Wait was invoked has been passed to the callback exactly once and that
 // this callback has returned.
-func (w *world) wait(who string) {
+func (w *world) wait(who string) (inv int) {
 	r := w.r
-	inv := w.tick()
+	inv = w.tick()
 	r.Ev("wait", int64(inv))
 	if w.executing > 0 {
 		r.Probe("wait-while-executing")
@@ -663,21 +1150,23 @@ func (w *world) wait(who string) {
 		r.Probe("wait-covered-tasks")
 	}
 	if len(notStarted) == 0 && len(running) == 0 {
-		return
+		return inv
 	}
 	msg := fmt.Sprintf("%s: Wait invoked at event %d returned at event %d although tasks added before it are not done: never passed to the callback %v, callback still running %v; Add calls in flight at that moment: %v", who, inv, ret, notStarted, running, keys(w.inflight))
-	if len(w.inflight) > 0 {
+	if len(w.inflight) > 0 && !w.p.unreachable {
 		// scenario classes around the hand-off of a full batch from Add to the background
-		// goroutine; told apart in settle() once the batches are known
+		// goroutine; told apart in settle() once the batches are known (in a run whose workload
+		// cannot reach the threshold there is no hand-off that could explain anything)
 		ew := &earlyWait{msg: msg, missed: append(append([]int{}, notStarted...), running...), inflight: map[int]bool{}}
 		for id := range w.inflight {
 			ew.inflight[id] = true
 		}
 		w.pending = append(w.pending, ew)
 		r.Probe("wait-early-with-add-in-flight")
-		return
+		return inv
 	}
 	w.failf("wait-early", "%s", msg)
+	return inv
 }
 
 func (w *world) sync() {
@@ -750,6 +1239,7 @@ func (w *world) burst() {
 	for i, size := range p.burst {
 		switch size {
 		case burstFlush, burstWait:
+			known := len(w.tasks)
 			if size == burstFlush {
 				w.flush(false)
 			} else {
@@ -763,11 +1253,19 @@ func (w *world) burst() {
 			}
 			pending = nil
 			flushes++
+			// tasks that the flushed batch's callback added itself are pending now
+			for _, t := range w.tasks[known:] {
+				pending = append(pending, t.id)
+				r.Probe("burst-reentrant-task-pending")
+			}
 		default:
 			rec := w.add(-1, size)
 			pending = append(pending, rec.id)
-			if size > p.threshold && p.variant == vChunk {
+			if size > p.threshold && p.variant == vChunk && p.threshold > 0 {
 				r.Probe("burst-oversized-task")
+			}
+			if p.threshold <= 0 {
+				r.Probe("burst-threshold-not-positive")
 			}
 			if w.reached(pending) {
 				for _, id := range pending {
@@ -801,6 +1299,9 @@ func (w *world) burst() {
 			case expected[t.id] && t.execs == 0:
 				w.failf("threshold-not-honoured", "after step #%d of the burst %v (sequential, before the first tick) tasks %v reached the threshold %d or were flushed explicitly, but task %d was not passed to the callback at quiescence", i, p.burst, keys(expected), p.threshold, t.id)
 				return
+			case !expected[t.id] && t.execs > 0 && p.defThreshold:
+				// the size option was not passed: what the package default is is not the harness' business
+				r.Probe("burst-default-threshold-not-judged")
 			case !expected[t.id] && t.execs > 0:
 				w.failf("premature-flush", "after step #%d of the burst %v (sequential, before the first tick) task %d was passed to the callback although the threshold %d was not reached since the last flush (pending %v, sizes %v)", i, p.burst, t.id, p.threshold, pending, w.sizesOf(pending))
 				return
@@ -842,10 +1343,15 @@ const opBudget = 3 * time.Hour
 
 func body(r *simrt.Run, tier string) {
 	p := drawPlan(r.Tape, tier)
-	w := &world{r: r, p: p, harnessTasks: map[int]bool{r.CurrentID(): true}, curOp: map[int]string{}, opInv: map[int]int{}, tolerate: map[string]bool{}, inflight: map[int]bool{}}
+	w := &world{r: r, p: p, nilID: -1, harnessTasks: map[int]bool{r.CurrentID(): true}, curOp: map[int]string{}, opInv: map[int]int{}, tolerate: map[string]bool{}, capture: map[string]bool{}, inflight: map[int]bool{}}
 	for _, c := range strings.Split(os.Getenv("VERIF_C11_TOLERATE"), ",") {
 		if c != "" {
 			w.tolerate[c] = true
+		}
+	}
+	for _, c := range strings.Split(os.Getenv("VERIF_C11_CAPTURE"), ",") {
+		if c != "" {
+			w.capture[c] = true
 		}
 	}
 	if r.Tracing() {
@@ -853,7 +1359,14 @@ func body(r *simrt.Run, tier string) {
 	}
 	sample := map[string]any{"executor": vNames[p.variant], "threshold": p.threshold, "interval": p.interval.String(), "burst": fmt.Sprint(p.burst),
 		"producers": len(p.prods), "first_producer": fmtOps(p, p.prods[0]), "callback_work": fmtWork(p.cbWork), "panic_at_invocation": p.panicAt,
-		"eventual_phase": p.eventual, "adds_aimed_at_quit_tick": p.sniper, "concurrent_waiter_at": p.midWaiter.String()}
+		"eventual_phase": p.eventual, "adds_aimed_at_quit_tick": p.sniper, "concurrent_waiter_at": p.midWaiter.String(),
+		"constructor_options": p.fmtOptions(), "panicking_invocations": fmt.Sprint(keys(p.panicSet)), "panic_values": p.fmtPanicKinds(), "task_values": vmNames[p.valMode], "nil_task_at_add": p.nilAt}
+	if p.variant == vPeriodical {
+		sample["container_batch_type"] = bkNames[p.batchKind]
+	}
+	if len(p.reAt) > 0 && p.unreachable {
+		sample["reentrant_callbacks"] = p.fmtReentrant()
+	}
 	if p.ins != nil {
 		sample["inserter"] = p.ins.String()
 	}
@@ -866,14 +1379,48 @@ func body(r *simrt.Run, tier string) {
 
 	switch p.variant {
 	case vBulk:
-		w.ex = bulkEx{executors.NewBulkExecutor(w.execute, executors.WithBulkTasks(p.threshold), executors.WithBulkInterval(p.interval))}
+		var opts []executors.BulkOption
+		if !p.defThreshold {
+			opts = append(opts, executors.WithBulkTasks(p.threshold))
+		}
+		if !p.defInterval {
+			opts = append(opts, executors.WithBulkInterval(p.interval))
+		}
+		if p.optsReversed && len(opts) == 2 {
+			opts[0], opts[1] = opts[1], opts[0]
+		}
+		w.ex = bulkEx{executors.NewBulkExecutor(w.execute, opts...), w}
 	case vChunk:
-		w.ex = chunkEx{executors.NewChunkExecutor(w.execute, executors.WithChunkBytes(p.threshold), executors.WithFlushInterval(p.interval))}
+		var opts []executors.ChunkOption
+		if !p.defThreshold {
+			opts = append(opts, executors.WithChunkBytes(p.threshold))
+		}
+		if !p.defInterval {
+			opts = append(opts, executors.WithFlushInterval(p.interval))
+		}
+		if p.optsReversed && len(opts) == 2 {
+			opts[0], opts[1] = opts[1], opts[0]
+		}
+		w.ex = chunkEx{executors.NewChunkExecutor(w.execute, opts...), w}
 	case vInserter:
 		w.bodyInserter()
 		return
 	default:
-		w.ex = periodicalEx{executors.NewPeriodicalExecutor(p.interval, &container{w: w, max: p.threshold})}
+		w.ex = periodicalEx{executors.NewPeriodicalExecutor(p.interval, &container{w: w, max: p.threshold, kind: p.batchKind}), w}
+	}
+	w.dimensionProbes()
+
+	// ---- phase 0' (drawn, rare: ~1000 calls): fill the executor up to its 1000-task threshold
+	if p.prefill > 0 {
+		r.Probe("bulk-prefill-to-1000")
+		pt := w.goTask("prefill", func() {
+			for i := 0; i < p.prefill && !r.Failed(); i++ {
+				w.add(-1, 1)
+			}
+		})
+		if !w.joinOps(opBudget, pt) || r.Failed() {
+			return
+		}
 	}
 
 	// ---- phase 0: sequential burst with the exact threshold model
@@ -935,9 +1482,25 @@ func body(r *simrt.Run, tier string) {
 	}
 
 	// ---- phase 3: final Wait; everything must have been executed exactly once and returned
-	fw := w.goTask("final-wait", func() { w.wait("final-wait") })
+	finalInv := 0
+	fw := w.goTask("final-wait", func() { finalInv = w.wait("final-wait") })
 	if !w.joinOps(opBudget, fw) || r.Failed() {
 		return
+	}
+	// a task that a callback added to its own executor after the final Wait was invoked (from
+	// the batch the Wait itself flushed, or from a slow callback that was still running) is
+	// not covered by that Wait: the periodic flush has to deliver it
+	late := 0
+	for _, t := range w.tasks {
+		if t.prod == reProd && (t.addRet == 0 || t.addRet > finalInv) && (t.execs == 0 || t.batch.end == 0) {
+			late++
+		}
+	}
+	if late > 0 {
+		r.Probe("reentrant-add-after-final-wait")
+		if !w.eventualPhase() {
+			return
+		}
 	}
 	if !w.exactlyOnce("the final Wait returned") {
 		return
@@ -965,7 +1528,7 @@ func (w *world) sniperPhase() bool {
 			r.Probe("add-aimed-at-quit-tick")
 		}
 		n := 1
-		if p.sniper == 2 {
+		if p.sniper == 2 && p.threshold > 1 {
 			n = p.threshold
 		}
 		for i := 0; i < n; i++ {
@@ -1082,6 +1645,38 @@ func (w *world) panicked() []int {
 		}
 	}
 	return out
+}
+
+// dimensionProbes counts the drawn dimensions of the run (executor variants).
+func (w *world) dimensionProbes() {
+	r, p := w.r, w.p
+	if p.defThreshold {
+		r.Probe("option-size-not-passed")
+	}
+	if p.defInterval {
+		r.Probe("option-interval-not-passed")
+	}
+	if p.defThreshold && p.defInterval {
+		r.Probe("constructor-without-options")
+	}
+	if p.optsReversed && !p.defThreshold && !p.defInterval && p.variant != vPeriodical {
+		r.Probe("options-interval-first")
+	}
+	if p.threshold <= 0 {
+		r.Probe("threshold-not-positive")
+	}
+	if p.threshold >= 1000 {
+		r.Probe("threshold-beyond-workload")
+	}
+	if p.valMode != vmInt {
+		r.Probe("task-values-not-int")
+	}
+	if p.variant == vPeriodical && p.batchKind != bkSlice {
+		r.Probe("batch-kind-" + bkShort[p.batchKind])
+	}
+	if len(p.panicSet) > 1 {
+		r.Probe("several-panicking-invocations-drawn")
+	}
 }
 
 // raceProbes counts boundary situations that were actually generated.
